@@ -10,85 +10,9 @@
 //!   run    --walks W --out T            walks = {"id":n,"cfg":{..},"steps":[{"name":..},..]} (Sim_Exec)
 //!   random --walks N --blocks B --out T seeded driver (VERIF_SEED)
 mod db;
+mod driver;
 mod world;
 
-use h_common::*;
-use serde_json::Value;
-use world::*;
-
-fn run_walks(args: &Args) {
-    let path = args.req("walks");
-    let text = std::fs::read_to_string(path).unwrap_or_else(|e| die(&format!("open {path}: {e}")));
-    let mut t = Trace::create(args.req("out"));
-    for line in text.lines().filter(|l| !l.trim().is_empty()) {
-        let v: Value = serde_json::from_str(line).unwrap_or_else(|e| die(&format!("walk json: {e}")));
-        let id = v["id"].as_i64().unwrap_or(0);
-        let cfg = scale_cfg(&v["cfg"]);
-        t.reset(id, json!({}));
-        let mut world = World::new(cfg);
-        world.log_setup(&mut t);
-        // group the walk's steps into blocks: ProduceBegin, TryTx*, (everything else is derived)
-        let steps = v["steps"].as_array().cloned().unwrap_or_default();
-        let mut i = 0;
-        while i < steps.len() {
-            let s = &steps[i];
-            if s["name"] == "ProduceBegin" {
-                let mut txs = vec![];
-                let mut tampers = vec![];
-                let mut j = i + 1;
-                while j < steps.len() && steps[j]["name"] != "ProduceBegin" {
-                    if steps[j]["name"] == "TryTx" {
-                        txs.push(steps[j]["id"].as_str().unwrap_or("").to_string());
-                    }
-                    if steps[j]["name"] == "Tamper" {
-                        tampers.push(steps[j]["kind"].as_str().unwrap_or("").to_string());
-                    }
-                    j += 1;
-                }
-                let plan = BlockPlan {
-                    da: s["da"].as_u64().unwrap_or(0),
-                    gp: s["gp"].as_u64().unwrap_or(0),
-                    cb: s["cb"].as_str().unwrap_or("none").to_string(),
-                    batches: if txs.is_empty() { vec![] } else { vec![txs] },
-                    tampers,
-                };
-                world.run_block(&plan, &mut t);
-                i = j;
-            } else {
-                i += 1;
-            }
-        }
-    }
-    t.finish();
-}
-
-fn random(args: &Args) {
-    let n = args.num("walks", 20);
-    let blocks = args.num("blocks", 6);
-    // --small-size 1: every world gets a block size limit that a source ignoring its `size` argument can exceed
-    let small = args.num("small-size", 0) == 1;
-    let mut t = Trace::create(args.req("out"));
-    for id in 0..n {
-        let mut rng = Rng::new(env_seed().wrapping_mul(1_000_003) ^ (id.wrapping_mul(7919) + 17));
-        let cfg = random_cfg(&mut rng, small);
-        t.reset(id as i64, json!({}));
-        let mut world = World::new(cfg);
-        world.log_setup(&mut t);
-        for _ in 0..blocks {
-            world.add_late_txs(&mut rng, &mut t);
-            let plan = world.random_plan(&mut rng);
-            world.run_block(&plan, &mut t);
-        }
-    }
-    t.finish();
-}
-
 fn main() {
-    let args = Args::parse();
-    match args.mode.as_str() {
-        "run" => run_walks(&args),
-        "random" => random(&args),
-        "probe" => world::probe(),
-        m => die(&format!("unknown mode {m}")),
-    }
+    driver::main()
 }
